@@ -242,13 +242,13 @@ Section DictProofs.
   Lemma nth_dense : forall (d : dict) k, sorted d ->
     cf (dense C c0 d) k = coeff d (N.of_nat k).
   Proof.
-    intros d k S. unfold dense. destruct d as [|kv d]. destruct k; reflexivity.
+    intros d k Sd. unfold dense. destruct d as [|kv d]. destruct k; reflexivity.
     set (dd := kv :: d) in *.
     destruct (Nat.lt_ge_cases k (S (N.to_nat (degree dd)))) as [L|L].
     - rewrite (nth_indep _ c0 (coeff dd (N.of_nat O))) by (rewrite map_length, seq_length; exact L).
       rewrite (map_nth (fun i => coeff dd (N.of_nat i))). rewrite seq_nth by exact L. reflexivity.
     - rewrite nth_overflow by (rewrite map_length, seq_length; exact L).
-      symmetry. apply coeff_gt_degree. exact S. lia.
+      symmetry. apply coeff_gt_degree. exact Sd. lia.
   Qed.
 
   Lemma from_vec_dense : forall d : dict, wf d -> from_vec (dense C c0 d) = d.
@@ -468,14 +468,15 @@ Section DictProofs.
   Proof.
     induction a as [|[k v] a IH]; intros [S Nz].
     - split. split; [exact I | constructor]. intro j. cbn. ring.
-    - cbn [sorted] in S. destruct S as [A S]. inversion Nz; subst.
-      destruct (IH (conj S ltac:(assumption))) as [[S' N'] H'].
+    - cbn [sorted] in S. destruct S as [A S]. inversion Nz as [|? ? Hv Nz']; subst.
+      assert (Wa : wf a) by (split; assumption).
+      destruct (IH Wa) as [[S' N'] H'].
       unfold dict_neg in *. cbn [map fst snd]. split; [split|].
       + cbn [sorted]. split; [|exact S'].
         apply Forall_forall. intros x Hx. apply in_map_iff in Hx. destruct Hx as [y [Ey Hy]].
         subst x. cbn [fst]. rewrite Forall_forall in A. apply A. exact Hy.
       + constructor; [|exact N']. cbn [snd] in *. intro E.
-        match goal with Hv : v <> c0 |- _ => apply Hv end.
+        apply Hv.
         replace v with (copp (v ⊗ copp c1)) by ring. rewrite E. ring.
       + intro j. cbn [get_coeff]. destruct (k =? j). ring. apply H'.
   Qed.
@@ -485,5 +486,388 @@ Section DictProofs.
     intro p. destruct (dict_neg_spec _ (from_vec_wf p)) as [W H].
     apply from_vec_ext. exact W. intro k. rewrite H, coeff_from_vec.
     unfold scoeff. rewrite (nth_sneg C c0 c1 cadd cmul csub copp Crt). reflexivity.
+  Qed.
+
+  (* ---------------------------------------------------------------- ODictWrapper::mul *)
+  Local Notation upd_term := (upd_term C c0 cadd).
+
+  Lemma upd_term_above : forall (d : dict) k v m, above m d -> m < k -> above m (upd_term d k v).
+  Proof.
+    induction d as [|[k' v'] d IH]; intros k v m A Hm; cbn [PolyModel.upd_term].
+    - constructor. exact Hm. constructor.
+    - inversion A; subst. cbn [fst] in *.
+      destruct (k' <? k). constructor. assumption. apply IH; assumption.
+      destruct (k' =? k). constructor; assumption.
+      constructor. exact Hm. exact A.
+  Qed.
+
+  Lemma upd_term_sorted : forall (d : dict) k v, sorted d -> sorted (upd_term d k v).
+  Proof.
+    induction d as [|[k' v'] d IH]; intros k v Sd; cbn [PolyModel.upd_term]. cbn. auto.
+    cbn [sorted] in Sd. destruct Sd as [A Sd].
+    destruct (k' <? k) eqn:E1.
+    - cbn [sorted]. split. apply upd_term_above. exact A. lia. apply IH. exact Sd.
+    - destruct (k' =? k) eqn:E2.
+      + cbn [sorted]. split; assumption.
+      + cbn [sorted]. split; [|split; assumption].
+        constructor. cbn. lia. eapply above_weaken; [|exact A]. lia.
+  Qed.
+
+  Lemma coeff_upd_term : forall (d : dict) k v j, sorted d ->
+    coeff (upd_term d k v) j = if j =? k then coeff d k ⊕ v else coeff d j.
+  Proof.
+    induction d as [|[k' v'] d IH]; intros k v j Sd; cbn [PolyModel.upd_term get_coeff].
+    - rewrite (N.eqb_sym k j). destruct (j =? k); reflexivity.
+    - cbn [sorted] in Sd. destruct Sd as [A Sd].
+      destruct (k' <? k) eqn:E1.
+      + cbn [get_coeff]. rewrite IH by exact Sd.
+        replace (k' =? k) with false by lia.
+        destruct (k' =? j) eqn:E3; [|reflexivity]. replace (j =? k) with false by lia. reflexivity.
+      + destruct (k' =? k) eqn:E2.
+        * assert (k' = k) by lia. subst k'. cbn [get_coeff]. destruct (j =? k) eqn:E4.
+          -- replace (k =? j) with true by lia. reflexivity.
+          -- replace (k =? j) with false by lia. reflexivity.
+        * cbn [get_coeff]. rewrite (N.eqb_sym k j). destruct (j =? k) eqn:E4.
+          -- assert (j = k) by lia. subst j.
+             rewrite (coeff_above d k' k A) by lia. reflexivity.
+          -- reflexivity.
+  Qed.
+
+  (* the contribution of one term of a, and of all of a, to the coefficient of x^j *)
+  Definition rowc (k1 : N) (v1 : C) (b : dict) (j : N) : C :=
+    fold_right (fun i2 s => (if j =? k1 + fst i2 then v1 ⊗ snd i2 else c0) ⊕ s) c0 b.
+  Definition convc (a b : dict) (j : N) : C :=
+    fold_right (fun i1 s => rowc (fst i1) (snd i1) b j ⊕ s) c0 a.
+
+  Lemma mul_row_spec : forall (b p : dict) k1 v1, sorted p ->
+    Forall (fun i2 => k1 + fst i2 < W32) b ->
+    sorted (mul_row C c0 cadd cmul (k1, v1) b p) /\
+    forall j, coeff (mul_row C c0 cadd cmul (k1, v1) b p) j = coeff p j ⊕ rowc k1 v1 b j.
+  Proof.
+    unfold mul_row. induction b as [|[k2 v2] b IH]; intros p k1 v1 Sp F; cbn [fold_left fst snd].
+    - split. exact Sp. intro j. cbn. ring.
+    - inversion F; subst. cbn [fst] in *.
+      assert (E : uadd k1 k2 = k1 + k2) by (unfold uadd; apply N.mod_small; assumption).
+      rewrite E.
+      destruct (IH (upd_term p (k1 + k2) (v1 ⊗ v2)) k1 v1) as [Sr Hr].
+      apply upd_term_sorted; exact Sp. assumption.
+      split. exact Sr. intro j. rewrite Hr. rewrite coeff_upd_term by exact Sp.
+      cbn [rowc fold_right fst snd]. fold (rowc k1 v1 b j).
+      destruct (j =? k1 + k2) eqn:E2.
+      + assert (j = k1 + k2) by lia. subst j. ring.
+      + ring.
+  Qed.
+
+  Lemma mul_acc_spec : forall (a b acc : dict), sorted acc ->
+    Forall (fun i1 => Forall (fun i2 => fst i1 + fst i2 < W32) b) a ->
+    let r := fold_left (fun p i1 => mul_row C c0 cadd cmul i1 b p) a acc in
+    sorted r /\ forall j, coeff r j = coeff acc j ⊕ convc a b j.
+  Proof.
+    induction a as [|[k1 v1] a IH]; intros b acc Sacc F; cbn [fold_left].
+    - split. exact Sacc. intro j. cbn. ring.
+    - inversion F; subst. cbn [fst] in *.
+      destruct (mul_row_spec b acc k1 v1 Sacc) as [Srow Hrow]. assumption.
+      destruct (IH b _ Srow) as [Sr Hr]. assumption.
+      split. exact Sr. intro j. rewrite Hr, Hrow. cbn [convc fold_right fst snd].
+      fold (convc a b j). ring.
+  Qed.
+
+  Lemma rowc_from_vec : forall q i a m j,
+    rowc i a (from_vec_aux m q) j = if j <? i + m then c0 else a ⊗ cf q (N.to_nat (j - (i + m))).
+  Proof.
+    induction q as [|b q IH]; intros i a m j; cbn [PolyModel.from_vec_aux].
+    - cbn [rowc fold_right]. destruct (j <? i + m). reflexivity.
+      destruct (N.to_nat (j - (i + m))); cbn [nth]; ring.
+    - assert (Hrest : rowc i a (from_vec_aux (m + 1) q) j
+                      = if j <? i + (m + 1) then c0 else a ⊗ cf q (N.to_nat (j - (i + (m + 1))))) by apply IH.
+      assert (Hgoal : (if j =? i + m then a ⊗ b else c0) ⊕ rowc i a (from_vec_aux (m + 1) q) j
+                      = if j <? i + m then c0 else a ⊗ cf (b :: q) (N.to_nat (j - (i + m)))).
+      { rewrite Hrest. destruct (j <? i + m) eqn:E1.
+        - replace (j =? i + m) with false by lia. replace (j <? i + (m + 1)) with true by lia. ring.
+        - destruct (j =? i + m) eqn:E2.
+          + replace (j <? i + (m + 1)) with true by lia.
+            replace (N.to_nat (j - (i + m))) with O by lia. cbn [nth]. ring.
+          + replace (j <? i + (m + 1)) with false by lia.
+            replace (N.to_nat (j - (i + m))) with (S (N.to_nat (j - (i + (m + 1))))) by lia.
+            cbn [nth]. ring. }
+      destruct (cnz b) eqn:E.
+      + cbn [rowc fold_right fst snd]. fold (rowc i a (from_vec_aux (m + 1) q) j). exact Hgoal.
+      + apply cnz_false in E. subst b. rewrite <- Hgoal.
+        destruct (j =? i + m); ring.
+  Qed.
+
+  Lemma convc_from_vec : forall p q i j,
+    convc (from_vec_aux i p) (from_vec q) j
+    = if j <? i then c0 else cf (smul p q) (N.to_nat (j - i)).
+  Proof.
+    induction p as [|a p IH]; intros q i j; cbn [PolyModel.from_vec_aux].
+    - cbn [convc fold_right PolySpec.smul]. destruct (j <? i). reflexivity.
+      destruct (N.to_nat (j - i)); reflexivity.
+    - assert (Hrest : convc (from_vec_aux (i + 1) p) (from_vec q) j
+                      = if j <? i + 1 then c0 else cf (smul p q) (N.to_nat (j - (i + 1)))) by apply IH.
+      assert (Hrow : rowc i a (from_vec q) j = if j <? i then c0 else a ⊗ cf q (N.to_nat (j - i))).
+      { unfold PolyModel.from_vec. rewrite rowc_from_vec. rewrite N.add_0_r. reflexivity. }
+      assert (Hgoal : rowc i a (from_vec q) j ⊕ convc (from_vec_aux (i + 1) p) (from_vec q) j
+                      = if j <? i then c0 else cf (smul (a :: p) q) (N.to_nat (j - i))).
+      { rewrite Hrest, Hrow. rewrite (nth_smul_cons C c0 c1 cadd cmul csub copp Crt).
+        destruct (j <? i) eqn:E1.
+        - replace (j <? i + 1) with true by lia. ring.
+        - destruct (j =? i) eqn:E2.
+          + replace (j <? i + 1) with true by lia.
+            replace (N.to_nat (j - i)) with O by lia. cbn [shiftc]. ring.
+          + replace (j <? i + 1) with false by lia.
+            replace (N.to_nat (j - i)) with (S (N.to_nat (j - (i + 1)))) by lia.
+            cbn [shiftc]. ring. }
+      destruct (cnz a) eqn:E.
+      + cbn [convc fold_right fst snd]. fold (convc (from_vec_aux (i + 1) p) (from_vec q) j). exact Hgoal.
+      + apply cnz_false in E. subst a. rewrite <- Hgoal.
+        rewrite Hrow. destruct (j <? i); ring.
+  Qed.
+
+  Lemma keys_sum_fit : forall a b : dict, sorted a -> sorted b -> degree a + degree b < W32 ->
+    Forall (fun i1 => Forall (fun i2 => fst i1 + fst i2 < W32) b) a.
+  Proof.
+    intros a b Sa Sb H. pose proof (keys_le_degree a Sa) as Ka. pose proof (keys_le_degree b Sb) as Kb.
+    eapply Forall_impl; [|exact Ka]. intros i1 H1. cbn in H1.
+    eapply Forall_impl; [|exact Kb]. intros i2 H2. cbn in H2. lia.
+  Qed.
+
+  Lemma from_vec_nil_zero : forall p, from_vec p = [] -> forall k, cf p k = c0.
+  Proof.
+    intros p H k. pose proof (coeff_from_vec p (N.of_nat k)) as E. rewrite H in E.
+    unfold scoeff in E. rewrite Nat2N.id in E. symmetry. exact E.
+  Qed.
+
+  Lemma convc_nil_r : forall (a : dict) j, convc a [] j = c0.
+  Proof.
+    intros a j. unfold convc. induction a as [|i1 l IHl]; cbn [fold_right]. reflexivity.
+    rewrite IHl. cbn [rowc fold_right]. ring.
+  Qed.
+
+  Lemma gmul_spec : forall a b : dict, wf a -> wf b -> degree a + degree b < W32 ->
+    wf (gmul C c0 cadd cmul ceqb a b) /\
+    forall j, coeff (gmul C c0 cadd cmul ceqb a b) j = convc a b j.
+  Proof.
+    intros a b Wa Wb H. unfold gmul.
+    destruct a as [|ka a']. { cbn. split. exact Wa. reflexivity. }
+    destruct b as [|kb b'].
+    { cbn [is_empty]. split. exact Wb. intro j. rewrite convc_nil_r. reflexivity. }
+    cbn [is_empty]. set (a := ka :: a') in *. set (b := kb :: b') in *.
+    destruct (mul_acc_spec a b [] I (keys_sum_fit a b (proj1 Wa) (proj1 Wb) H)) as [Sr Hr].
+    fold (mul_acc C c0 cadd cmul a b) in Sr, Hr.
+    split. split. apply clean_sorted. exact Sr. apply clean_nonzero.
+    intro j. rewrite coeff_clean by exact Sr. rewrite Hr. cbn [get_coeff]. ring.
+  Qed.
+
+  (* THEOREM (generic product, ODictWrapper::mul) *)
+  Theorem gmul_correct : forall p q,
+    degree (from_vec p) + degree (from_vec q) < W32 ->
+    gmul C c0 cadd cmul ceqb (from_vec p) (from_vec q) = from_vec (smul p q).
+  Proof.
+    intros p q H. destruct (gmul_spec _ _ (from_vec_wf p) (from_vec_wf q) H) as [W Hc].
+    apply from_vec_ext. exact W. intro j. rewrite Hc.
+    unfold PolyModel.from_vec at 1. rewrite convc_from_vec.
+    replace (j <? 0) with false by lia. rewrite N.sub_0_r. reflexivity.
+  Qed.
+
+  (* ---------------------------------------------------------------- evaluation *)
+  Local Notation cpow := (cpow C c1 cmul).
+
+  Lemma cpow_succ : forall x n, cpow x (N.succ n) = x ⊗ cpow x n.
+  Proof.
+    intros x [|p]; cbn [N.succ PolyModel.cpow].
+    - cbn. ring.
+    - apply Pos.iter_op_succ. intros a b c. ring.
+  Qed.
+
+  Lemma cpow_add : forall x a b, cpow x (a + b) = cpow x a ⊗ cpow x b.
+  Proof.
+    intros x a b. induction a as [|a IH] using N.peano_ind.
+    - rewrite N.add_0_l. cbn [PolyModel.cpow]. ring.
+    - rewrite N.add_succ_l, !cpow_succ, IH. ring.
+  Qed.
+
+  Definition dval (d : dict) (x : C) : C :=
+    fold_right (fun kv s => snd kv ⊗ cpow x (fst kv) ⊕ s) c0 d.
+  Definition hd_key (d : dict) (dflt : N) : N := match d with [] => dflt | (k, _) :: _ => k end.
+
+  Lemma eval_loop : forall x (d : dict) r0 l0, sorted d -> Forall (fun kv => fst kv <= l0) d ->
+    let st := fold_right (fun kv st => eval_step C c1 cadd cmul x st kv) (r0, l0) d in
+    snd st = hd_key d l0 /\ fst st ⊗ cpow x (snd st) = r0 ⊗ cpow x l0 ⊕ dval d x.
+  Proof.
+    intros x. induction d as [|[k v] d IH]; intros r0 l0 Sd F; cbn [fold_right].
+    - cbn. split. reflexivity. ring.
+    - cbn [sorted] in Sd. destruct Sd as [A Sd]. inversion F as [|? ? Fk Fd]; subst. cbn [fst] in Fk.
+      destruct (IH r0 l0 Sd Fd) as [H1 H2].
+      set (st := fold_right (fun kv st => eval_step C c1 cadd cmul x st kv) (r0, l0) d) in *.
+      unfold eval_step. cbn [fst snd hd_key]. split. reflexivity.
+      assert (Hk : k <= snd st).
+      { rewrite H1. destruct d as [|[k2 v2] d]; cbn [hd_key]. exact Fk.
+        inversion A; subst. cbn [fst] in *. lia. }
+      cbn [dval fold_right fst snd]. fold (dval d x).
+      assert (Hp : cpow x (snd st) = cpow x (snd st - k) ⊗ cpow x k).
+      { rewrite <- cpow_add. f_equal. lia. }
+      rewrite Hp in H2.
+      transitivity (v ⊗ cpow x k ⊕ fst st ⊗ (cpow x (snd st - k) ⊗ cpow x k)). ring.
+      rewrite H2. ring.
+  Qed.
+
+  Lemma dval_from_vec_aux : forall p i x, dval (from_vec_aux i p) x = cpow x i ⊗ seval p x.
+  Proof.
+    induction p as [|a p IH]; intros i x; cbn [PolyModel.from_vec_aux PolySpec.seval].
+    - cbn. ring.
+    - assert (Hrest : dval (from_vec_aux (i + 1) p) x = x ⊗ cpow x i ⊗ seval p x).
+      { rewrite IH. rewrite N.add_1_r, cpow_succ. reflexivity. }
+      destruct (cnz a) eqn:E.
+      + cbn [dval fold_right fst snd]. fold (dval (from_vec_aux (i + 1) p) x). rewrite Hrest. ring.
+      + apply cnz_false in E. subst a. rewrite Hrest. ring.
+  Qed.
+
+  Lemma poly_eval_dval : forall (d : dict) x, sorted d ->
+    poly_eval C c0 c1 cadd cmul d x = dval d x.
+  Proof.
+    intros d x Sd. unfold poly_eval. destruct (rev d) as [|[k0 v0] l] eqn:E.
+    - assert (d = []). { rewrite <- (rev_involutive d), E. reflexivity. } subst d. reflexivity.
+    - rewrite <- E.
+      replace (fold_left (eval_step C c1 cadd cmul x) (rev d) (c0, k0))
+        with (fold_right (fun kv st => eval_step C c1 cadd cmul x st kv) (c0, k0) d).
+      2:{ rewrite <- (rev_involutive d) at 1. rewrite fold_left_rev_right. reflexivity. }
+      assert (Hdeg : degree d = k0) by (unfold degree; rewrite E; reflexivity).
+      destruct (eval_loop x d c0 k0 Sd) as [_ H2].
+      { rewrite <- Hdeg. apply keys_le_degree. exact Sd. }
+      rewrite H2. ring.
+  Qed.
+
+  (* THEOREM (evaluation) *)
+  Theorem poly_eval_correct : forall p x,
+    poly_eval C c0 c1 cadd cmul (from_vec p) x = seval p x.
+  Proof.
+    intros p x. rewrite poly_eval_dval by apply from_vec_wf.
+    unfold PolyModel.from_vec. rewrite dval_from_vec_aux. cbn [PolyModel.cpow]. ring.
+  Qed.
+
+  (* ---------------------------------------------------------------- differentiation *)
+  Local Notation dmap d := (map (fun kv : N * C => (fst kv - 1, snd kv ⊗ cofN (fst kv)))
+                                (filter (fun kv : N * C => negb (fst kv =? 0)) d)).
+
+  Lemma coeff_dmap : forall (d : dict) j, coeff (dmap d) j = coeff d (j + 1) ⊗ cofN (j + 1).
+  Proof.
+    induction d as [|[k v] d IH]; intro j; cbn [filter map fst snd get_coeff].
+    - ring.
+    - destruct (k =? 0) eqn:E0; cbn [negb map fst snd get_coeff].
+      + replace (k =? j + 1) with false by lia. apply IH.
+      + destruct (k - 1 =? j) eqn:E1.
+        * replace (k =? j + 1) with true by lia. replace (j + 1) with k by lia. reflexivity.
+        * replace (k =? j + 1) with false by lia. apply IH.
+  Qed.
+
+  Lemma dmap_above : forall (d : dict) m, 1 <= m -> above m d -> above (m - 1) (dmap d).
+  Proof.
+    induction d as [|[k v] d IH]; intros m Hm A; cbn [filter map fst snd]. constructor.
+    inversion A; subst. cbn [fst] in *.
+    replace (k =? 0) with false by lia. cbn [negb map fst snd].
+    constructor. cbn [fst]. lia. apply IH; assumption.
+  Qed.
+
+  Lemma dmap_sorted : forall d : dict, sorted d -> sorted (dmap d).
+  Proof.
+    induction d as [|[k v] d IH]; intro Sd; cbn [filter map fst snd]. exact I.
+    cbn [sorted] in Sd. destruct Sd as [A Sd].
+    destruct (k =? 0) eqn:E0; cbn [negb map fst snd].
+    - apply IH. exact Sd.
+    - cbn [sorted]. split. apply dmap_above. lia. exact A. apply IH. exact Sd.
+  Qed.
+
+  Lemma nth_sdiff_aux : forall p i k,
+    cf (sdiff_aux C cmul cofN i p) k = cf p k ⊗ cofN (i + N.of_nat k).
+  Proof.
+    induction p as [|a p IH]; intros i k; cbn [sdiff_aux].
+    - destruct k; cbn [nth]; ring.
+    - destruct k; cbn [nth].
+      + rewrite N.add_0_r. reflexivity.
+      + rewrite IH. replace (i + 1 + N.of_nat k) with (i + N.of_nat (S k)) by lia. reflexivity.
+  Qed.
+
+  Lemma nth_sdiff : forall p k, cf (sdiff C cmul cofN p) k = cf p (S k) ⊗ cofN (N.of_nat k + 1).
+  Proof.
+    intros [|a p] k; cbn [sdiff].
+    - destruct k; cbn [nth]; ring.
+    - rewrite nth_sdiff_aux. cbn [nth]. rewrite N.add_comm. reflexivity.
+  Qed.
+
+  (* THEOREM (differentiation) *)
+  Theorem dict_diff_correct : forall p,
+    dict_diff C c0 cmul ceqb cofN (from_vec p) = from_vec (sdiff C cmul cofN p).
+  Proof.
+    intro p. unfold dict_diff. destruct (from_vec_wf p) as [Sp _].
+    apply from_vec_ext.
+    - split. apply clean_sorted. apply dmap_sorted. exact Sp. apply clean_nonzero.
+    - intro j. rewrite coeff_clean by (apply dmap_sorted; exact Sp).
+      rewrite coeff_dmap, coeff_from_vec. unfold scoeff. rewrite nth_sdiff.
+      replace (N.to_nat (j + 1)) with (S (N.to_nat j)) by lia. rewrite N2Nat.id. reflexivity.
+  Qed.
+
+  (* ---------------------------------------------------------------- operator*= *)
+  Hypothesis Cintegral : forall x y, x ⊗ y = c0 -> x = c0 \/ y = c0.
+
+  Lemma from_vec_zero : forall p, (forall k, cf p k = c0) -> from_vec p = [].
+  Proof.
+    intros p H. symmetry. apply from_vec_ext. split; [exact I | constructor].
+    intro k. unfold scoeff. rewrite H. reflexivity.
+  Qed.
+
+  Lemma smul_zero_r : forall p q, (forall k, cf q k = c0) -> forall k, cf (smul p q) k = c0.
+  Proof.
+    intros p q H k. rewrite (smul_comm C c0 c1 cadd cmul csub copp Crt).
+    apply (nth_smul_zero_l C c0 c1 cadd cmul csub copp Crt). exact H.
+  Qed.
+
+  Lemma scale_spec : forall (a : dict) t, wf a -> t <> c0 ->
+    let r := map (fun kv : N * C => (fst kv, snd kv ⊗ t)) a in
+    wf r /\ forall j, coeff r j = coeff a j ⊗ t.
+  Proof.
+    induction a as [|[k v] a IH]; intros t [Sa Na] Ht; cbn [map fst snd].
+    - split. split; [exact I | constructor]. intro j. cbn. ring.
+    - cbn [sorted] in Sa. destruct Sa as [A Sa]. inversion Na as [|? ? Hv Na']; subst.
+      cbn [snd] in Hv.
+      destruct (IH t (conj Sa Na') Ht) as [[S' N'] H']. split; [split|].
+      + cbn [sorted]. split; [|exact S'].
+        apply Forall_forall. intros y Hy. apply in_map_iff in Hy. destruct Hy as [z [Ez Hz]].
+        subst y. cbn [fst]. rewrite Forall_forall in A. apply A. exact Hz.
+      + constructor; [|exact N']. cbn [snd]. intro E. destruct (Cintegral _ _ E); contradiction.
+      + intro j. cbn [get_coeff]. destruct (k =? j). reflexivity. apply H'.
+  Qed.
+
+  (* THEOREM (mul_upoly = operator*= over a container product mulf) *)
+  Theorem imul_correct : forall (mulf : dict -> dict -> res dict) p q,
+    mulf (from_vec p) (from_vec q) = Ok (from_vec (smul p q)) ->
+    imul C cmul mulf (from_vec p) (from_vec q) = Ok (from_vec (smul p q)).
+  Proof.
+    intros mulf p q Hm. unfold imul.
+    destruct (from_vec p) as [|ka a'] eqn:Ea.
+    { f_equal. symmetry. apply from_vec_zero.
+      apply (nth_smul_zero_l C c0 c1 cadd cmul csub copp Crt). apply from_vec_nil_zero. exact Ea. }
+    destruct (from_vec q) as [|[kb t] b'] eqn:Eb.
+    { f_equal. symmetry. apply from_vec_zero. apply smul_zero_r. apply from_vec_nil_zero. exact Eb. }
+    destruct (is_empty b' && has_key0 C ((kb, t) :: b')) eqn:Econst; [|exact Hm].
+    apply andb_prop in Econst. destruct Econst as [E1 E2].
+    destruct b' as [|? ?]; [|discriminate E1].
+    unfold has_key0 in E2. cbn [existsb fst] in E2. rewrite orb_false_r in E2.
+    assert (kb = 0) by lia. subst kb.
+    pose proof (from_vec_wf p) as Wa. rewrite Ea in Wa.
+    pose proof (from_vec_wf q) as Wb. rewrite Eb in Wb.
+    assert (Ht : t <> c0). { destruct Wb as [_ Nb]. inversion Nb; subst. assumption. }
+    destruct (scale_spec (ka :: a') t Wa Ht) as [Wr Hr].
+    f_equal. apply from_vec_ext. exact Wr.
+    intro j. rewrite Hr. rewrite <- Ea, coeff_from_vec. unfold scoeff.
+    assert (Hq : peq q [t]).
+    { intro k. pose proof (coeff_from_vec q (N.of_nat k)) as Hc. rewrite Eb in Hc.
+      unfold scoeff in Hc. rewrite Nat2N.id in Hc. rewrite <- Hc. cbn [get_coeff].
+      destruct k; cbn [nth]. reflexivity. replace (0 =? N.of_nat (S k)) with false by lia.
+      destruct k; reflexivity. }
+    rewrite (smul_peq_r C c0 c1 cadd cmul csub copp Crt p q [t] Hq).
+    rewrite (smul_comm C c0 c1 cadd cmul csub copp Crt).
+    rewrite (nth_smul_cons C c0 c1 cadd cmul csub copp Crt). cbn [PolySpec.smul].
+    destruct (N.to_nat j); cbn [shiftc]; [|rewrite (nth_nil C c0)]; ring.
   Qed.
 End DictProofs.
